@@ -302,8 +302,8 @@ func (p *Program) explore(name string, entry *ssa.Function, body func(m *Machine
 		wg.Add(1)
 		go func() {
 			defer wg.Done()
-			sol := NewSolver(opt.TimeoutMs)
-			defer sol.Close()
+			sol := acquireSolver(opt.TimeoutMs)
+			defer releaseSolver(sol)
 			for {
 				mu.Lock()
 				for len(queue) == 0 && active > 0 && fatal == nil {
